@@ -47,7 +47,13 @@ def impl(d):
         ty = {"rel": C.TYPE_RELATIVE_TIMELOCK, "abs": C.TYPE_ABSOLUTE_TIMELOCK, "rbf": C.TYPE_REPLACE_BY_FEE}[k]
         # the documented default of the third argument is block units: use it on every other block-unit case
         s = Sequence(ty, d["v"]) if (d["blk"] is True and d["v"] % 2 == 0) else Sequence(ty, d["v"], d["blk"])
+        # the two views of one helper object must not depend on which was asked first, nor on being asked twice
+        first_script = (d["v"] % 3 == 1)
+        if first_script:
+            try: s.for_script()
+            except ValueError: pass
         a = s.for_input_sequence()
+        a_raw = a
         if k != "rel" and isinstance(a, (bytes, str)):
             # the property constrains these constants only through what they mean
             ab = bytes.fromhex(a) if isinstance(a, str) else a
@@ -59,7 +65,9 @@ def impl(d):
             b = str(s.for_script())
         except ValueError:
             b = "ERR"
-        return a + "|" + b
+        a2 = s.for_input_sequence()
+        stable = (a2 == a_raw)
+        return a + "|" + b + ("" if stable else "|UNSTABLE")
     if k == "lt":
         return Locktime(d["v"]).for_transaction().hex()
     if k == "csv":
